@@ -48,7 +48,7 @@ def feq(a, b):
     return a == b and isinstance(a, bool) == isinstance(b, bool)
 
 
-PASSTHRU = {"hex", "hexdump", "docs", "prefixed", "fixedsized", "padded", "aligned", "nullterm", "nullstrip", "bitwise",
+PASSTHRU = {"hex", "hexdump", "docs", "lazybound", "prefixed", "fixedsized", "padded", "aligned", "nullterm", "nullstrip", "bitwise",
             "bytewise", "byteswapped", "bitsswapped", "xor", "rol", "compressed"}
 
 
@@ -56,7 +56,7 @@ def projection(spec, supplied, parsed, where="value"):
     """model-free: every plain member the caller supplied must come back unchanged; returns a message or None"""
     k = spec[0]
     if k in ("int", "varint", "zigzag", "bytes", "gbytes", "pstr", "pascal", "cstr", "gstr", "flag", "float", "bits", "bit",
-             "nibble", "octet", "mapping", "oneof", "noneof"):
+             "nibble", "octet", "mapping", "oneof", "noneof", "exprsym", "expradd", "exprvalid"):
         if k == "flag":
             return None if parsed is bool(supplied) else "%s: built %r, parsed %r" % (where, supplied, parsed)
         if not feq(supplied, parsed) or (isinstance(supplied, str) and not isinstance(parsed, str)):
@@ -72,7 +72,7 @@ def projection(spec, supplied, parsed, where="value"):
     if k == "fixedsized" and G.fixed_size(spec[2]) is None:
         return None  # the region is zero-filled: a shorter greedy value legitimately comes back padded
     if k in PASSTHRU:
-        sub = spec[1] if k in ("hex", "hexdump", "docs", "nullterm", "nullstrip", "bitwise", "bytewise", "byteswapped", "bitsswapped", "compressed") else (spec[3] if k == "rol" else spec[2])
+        sub = spec[1] if k in ("hex", "hexdump", "docs", "lazybound", "nullterm", "nullstrip", "bitwise", "bytewise", "byteswapped", "bitsswapped", "compressed") else (spec[3] if k == "rol" else spec[2])
         return projection(sub, supplied, parsed, where)
     if k in ("struct", "bitstruct", "alignedstruct"):
         members = spec[2] if k == "alignedstruct" else spec[1]
